@@ -1,5 +1,6 @@
 import Driver.Codec
 import Cirbo.Model.Synth
+import Cirbo.Model.SynthCircuit
 /-! `synth_encode` / `synth_decode` requests -/
 open Lean Cirbo Driver Cirbo.Synth
 
@@ -59,6 +60,10 @@ def handle (op : String) (j : Json) : Except String Json := do
       ("ops", Json.arr (gs.map (fun g => Json.str (b01 (sol.op g false false) ++ b01 (sol.op g false true) ++
         b01 (sol.op g true false) ++ b01 (sol.op g true true)))).toArray),
       ("outs", Json.arr ((List.range sp.m).map (fun h => Json.num (sol.out h))).toArray)]))
+  | "synth_circuit" => do
+    let trues ← strs (← j.getObjVal? "true_vars")
+    let σ : SVar → Bool := fun v => trues.contains (varName v)
+    pure (ofExcept jCircuit (solToCircuit sp (decode sp σ)))
   | _ => throw "bad synth op"
 
 end SynthDrv
